@@ -1,7 +1,7 @@
 (* C11: lemmas about the generated errno table and the argument-checking prologues. *)
 Require Import List ZArith Bool Lia.
 Import ListNotations.
-Require Import LV.Err.ErrBase LV.Gen.ErrnoGen LV.Err.ContractModel.
+Require Import LV.Err.ErrBase LV.Gen.ErrnoGen LV.Err.OrderModel LV.Err.OrderProofs LV.Err.ContractModel.
 Open Scope Z_scope.
 
 (* ------------------------------------------------------------------ errno table (T3) *)
@@ -47,11 +47,27 @@ Proof.
   intros h c v r. destruct h as [s|]; simpl.
   - destruct c; simpl; unfold check_resize, usage; split_ifs; intro H; inversion H; subst;
       repeat split; reflexivity.
-  - intro H; inversion H; subst. repeat split; reflexivity.
+  - destruct (null_checked c); intro H; inversion H; subst. repeat split; reflexivity.
 Qed.
 
-Lemma data_total_l : forall h c, check_data h c = Pass \/ exists v r, check_data h c = Refuse v r.
-Proof. intros h c. destruct (check_data h c) as [|v r]; [left; reflexivity | right; eauto]. Qed.
+(* the NULL handle: answered with EINVAL exactly by the functions whose NULL test precedes every
+   dereference; the others have no defined answer, and a valid handle never faults *)
+Lemma data_null_handle_l : forall c,
+  (null_checked c = true -> check_data None c = Refuse (doc_fval c) (Direct E_INVAL)) /\
+  (null_checked c = false -> check_data None c = Fault).
+Proof. intro c. unfold check_data. destruct (null_checked c); split; intro H; try discriminate; reflexivity. Qed.
+
+Lemma check_data_some_no_fault : forall s c, check_data_some s c <> Fault.
+Proof.
+  intros s c. destruct c; simpl; unfold check_resize, usage; split_ifs; discriminate.
+Qed.
+
+Lemma data_fault_iff_l : forall h c, check_data h c = Fault <-> (h = None /\ null_checked c = false).
+Proof.
+  intros h c. destruct h as [s|]; simpl.
+  - split; [intro H; exfalso; exact (check_data_some_no_fault s c H) | intros [H _]; discriminate].
+  - destruct (null_checked c); split; try discriminate; try (intros [_ H]; discriminate); auto.
+Qed.
 
 Lemma bad_index_spec : forall i n, bad_index i n = negb (in_range i n).
 Proof.
@@ -86,6 +102,7 @@ Lemma data_refusal_iff_invalid_l : forall s c,
 Proof.
   intros s c Hf Hs.
   destruct c; simpl in Hs |- *; try rewrite Hs; unfold check_resize, usage, bad_index, bad_port, in_range, ports;
+    try generalize (too_large r c);
     try generalize (validate_type t r c); try generalize (validate_type t (d_rows s) (d_cols s));
     try generalize (d_fz0 s); intros;
     try (destruct negative; reflexivity).
@@ -107,47 +124,108 @@ Proof.
   destruct a, b, c, d; cbn [negb]; repeat split; zb.
 Qed.
 
+(* ------------------------------------------------------------------ the ordered body *)
+(* every refusing C statement has its entry in data_checks and vice versa *)
+Lemma data_order_fits_l : forall c, count_checks (dcall_order c) = length (data_checks c).
+Proof. intro c. destruct c; reflexivity. Qed.
+
+(* as found: every function of the family except vnadata_init makes all its tests before its first write *)
+Lemma data_orders_checks_first_l : forall c, is_init c = false -> checks_first (dcall_order c) = true.
+Proof. intros c H. destruct c; try discriminate; reflexivity. Qed.
+
+Lemma data_init_order_l :
+  gen_order_vnadata_init = EvW :: EvW :: gen_order_vnadata_resize /\ checks_first gen_order_vnadata_init = false.
+Proof. split; reflexivity. Qed.
+
 Section DataStepProofs.
   Variable payload : Type.
-  Variable work : dobj payload -> dcall -> payload.
-  Variable wipe : payload -> payload.
-  Let step := data_step payload work wipe.
+  Variable work : dcall -> nat -> dobj payload -> payload.
+  Let step := data_step payload work.
+  Let drun := data_run payload work.
 
-  Definition is_init (c : dcall) : bool := match c with CInit _ _ _ _ => true | _ => false end.
-
-  Lemma data_refused_unchanged_l : forall o c v r,
-    is_init c = false -> snd (step o c) = Refuse v r -> fst (step o c) = o.
+  Lemma data_run_no_late : forall o c o' v r, drun o c <> (o', MLate v r).
   Proof.
-    intros o c v r Hi. unfold step, data_step.
-    destruct (check_data_some (o_sum payload o) c) eqn:E; simpl; [discriminate|].
-    intros _. destruct c; try reflexivity; discriminate.
+    intros o c o' v r. unfold drun, data_run, data_body. apply assemble_no_late. intros k x. reflexivity.
   Qed.
 
-  Lemma data_step_outcome_l : forall o c, snd (step o c) = check_data_some (o_sum payload o) c.
-  Proof. intros. unfold step, data_step. destruct (check_data_some _ _); reflexivity. Qed.
+  (* for every function whose generated order has all refusing checks before the first write: a
+     refused call leaves the object - summary and rest - equal *)
+  Lemma data_refused_unchanged_l : forall o c v r,
+    checks_first (dcall_order c) = true -> snd (step o c) = Refuse v r -> fst (step o c) = o.
+  Proof.
+    intros o c v r Hc. unfold step, data_step. fold (drun o c).
+    destruct (drun o c) as [o' m] eqn:E. simpl. destruct m as [|v1 r1|v1 r1]; simpl; try discriminate.
+    - intros _. unfold drun, data_run, data_body in E. eapply assemble_refused_unchanged; eassumption.
+    - exfalso. eapply data_run_no_late; eassumption.
+  Qed.
 
+  (* link to the decision function: the outcome of a step is check_data_some on the summary the call
+     was given (for vnadata_init, whose final vnadata_resize tests the arguments only: check_resize) *)
+  Lemma first_refusal_data : forall o c,
+    outcome_of (mres_of (first_refusal (data_check_acts payload c) o)) = check_data_some (o_sum payload o) c.
+  Proof.
+    intros o c. destruct c; simpl; unfold check_resize, usage; split_ifs; try reflexivity; try discriminate.
+  Qed.
+
+  Lemma data_step_outcome_l : forall o c,
+    is_init c = false -> snd (step o c) = check_data_some (o_sum payload o) c.
+  Proof.
+    intros o c Hi. unfold step, data_step. fold (drun o c). destruct (drun o c) as [o' m] eqn:E. simpl.
+    rewrite <- first_refusal_data. f_equal.
+    assert (H : snd (drun o c) = m) by (rewrite E; reflexivity). rewrite <- H.
+    unfold drun, data_run, data_body. apply assemble_outcome.
+    - apply data_orders_checks_first_l; exact Hi.
+    - unfold data_check_acts. rewrite map_length. apply data_order_fits_l.
+    - intros k x. reflexivity.
+  Qed.
+
+  Lemma data_init_outcome_l : forall o t r c f,
+    snd (step o (CInit t r c f)) = check_resize t r c f.
+  Proof.
+    intros o t r c f. unfold step, data_step, data_run, data_body, data_check_acts. simpl.
+    unfold check_resize, usage. split_ifs; reflexivity.
+  Qed.
+
+  (* vnadata_init as coded: the object has been emptied by the time the final vnadata_resize refuses *)
   Lemma data_init_refused_cleared_l : forall o t r c f v rp,
     snd (step o (CInit t r c f)) = Refuse v rp ->
-    fst (step o (CInit t r c f)) = mkdobj payload (mkdsum 0 0 0 0 false) (wipe (o_rest payload o)).
+    o_sum payload (fst (step o (CInit t r c f))) = mkdsum 0 0 0 0 false.
   Proof.
-    intros o t r c f v rp. unfold step, data_step.
-    destruct (check_data_some _ _) eqn:E; simpl; [discriminate | reflexivity].
+    intros o t r c f v rp. unfold step, data_step, data_run, data_body, data_check_acts. simpl.
+    split_ifs; simpl; intro H; try reflexivity; discriminate.
   Qed.
 
-  Lemma validate_type_true_dims : forall t r c, validate_type t r c = true -> True.
-  Proof. trivial. Qed.
+  (* summary after a step *)
+  Lemma data_step_sum_l : forall o c,
+    o_sum payload (fst (step o c)) =
+    match snd (step o c) with
+    | Pass => sum_after (o_sum payload o) c
+    | _ => if is_init c then mkdsum 0 0 0 0 false else o_sum payload o
+    end.
+  Proof.
+    intros o c. destruct c; unfold step, data_step, data_run, data_body, data_check_acts; simpl;
+      split_ifs; simpl; try reflexivity; destruct (o_sum payload o); reflexivity.
+  Qed.
 
-  Lemma data_usable_after_l : forall o c,
+  (* the invariant under which all checks are defined is kept by every call, refused or not
+     (content: the Pass branches - the new dimensions passed the tests - and the cleared object of a
+     refused vnadata_init) *)
+  Lemma data_inv_preserved_l : forall o c,
     data_inv (o_sum payload o) -> data_inv (o_sum payload (fst (step o c))).
   Proof.
-    intros o c [Hr [Hc [Hf Hv]]]. unfold step, data_step.
-    destruct (check_data_some (o_sum payload o) c) eqn:E.
-    - (* passed: effect of the work on the summary *)
-      simpl. destruct c; simpl in *; unfold data_inv; simpl; try (repeat split; assumption).
-      + (* init *) unfold check_resize, usage in E.
-        destruct (r <? 0) eqn:A; [discriminate|]. destruct (c <? 0) eqn:B; [discriminate|].
-        destruct (f <? 0) eqn:C; [discriminate|]. destruct (validate_type t r c) eqn:D; [|discriminate].
-        apply Z.ltb_ge in A, B, C. repeat split; assumption.
+    intros o c [Hr [Hc [Hf Hv]]]. rewrite data_step_sum_l.
+    destruct (is_init c) eqn:Hi.
+    - destruct c; try discriminate. rewrite data_init_outcome_l.
+      unfold check_resize, usage.
+      destruct (r <? 0) eqn:A; [unfold data_inv; simpl; repeat split; lia|].
+      destruct (c <? 0) eqn:B; [unfold data_inv; simpl; repeat split; lia|].
+      destruct (f <? 0) eqn:C; [unfold data_inv; simpl; repeat split; lia|].
+      destruct (validate_type t r c) eqn:D; simpl; [|unfold data_inv; simpl; repeat split; lia].
+      destruct (too_large r c); [unfold data_inv; simpl; repeat split; lia|].
+      apply Z.ltb_ge in A, B, C. unfold data_inv; simpl. repeat split; assumption.
+    - rewrite data_step_outcome_l by exact Hi.
+      destruct (check_data_some (o_sum payload o) c) eqn:E; try (unfold data_inv; repeat split; assumption).
+      destruct c; simpl in *; unfold data_inv; simpl; try (repeat split; assumption); try discriminate.
       + (* resize *) unfold check_resize, usage in E.
         destruct (r <? 0) eqn:A; [discriminate|]. destruct (c <? 0) eqn:B; [discriminate|].
         destruct (f <? 0) eqn:C; [discriminate|]. destruct (validate_type t r c) eqn:D; [|discriminate].
@@ -155,9 +233,6 @@ Section DataStepProofs.
       + (* set_type *) unfold usage in E. destruct (validate_type t _ _) eqn:D; [|discriminate].
         repeat split; assumption.
       + (* add_frequency *) repeat split; try assumption. lia.
-    - (* refused *)
-      simpl. destruct c; simpl; try (repeat split; assumption).
-      unfold data_inv; simpl. repeat split; try lia.
   Qed.
 End DataStepProofs.
 
@@ -172,6 +247,16 @@ Example data_refusal_example :
 Proof. repeat split; try reflexivity; simpl; lia. Qed.
 
 (* ------------------------------------------------------------------ vnacal query family *)
+Lemma check_query_some_no_fault : forall sl c, check_query_some sl c <> Fault.
+Proof.
+  intros sl c. destruct c; simpl; unfold check_get.
+  - destruct ((ci <? 0) || (ci >=? Z.of_nat (length sl))); [discriminate|]. destruct (nth (Z.to_nat ci) sl None); discriminate.
+  - destruct (find_slot sl name); discriminate.
+  - destruct (slot_at sl ci); discriminate.
+  - destruct (ci =? -1); [discriminate|].
+    destruct ((ci <? 0) || (ci >=? Z.of_nat (length sl))); [discriminate|]. destruct (nth (Z.to_nat ci) sl None); discriminate.
+Qed.
+
 Lemma query_fail_classified_l : forall h c v r,
   check_query h c = Refuse v r -> doc_query_refusal h c (Refuse v r).
 Proof.
@@ -186,16 +271,33 @@ Proof.
       destruct ((ci <? 0) || (ci >=? Z.of_nat (length sl))).
       * intro H; inversion H; subst. repeat split; reflexivity.
       * destruct (nth (Z.to_nat ci) sl None); intro H; inversion H; subst. repeat split; reflexivity.
-  - intro H; inversion H; subst. repeat split; reflexivity.
+  - destruct (fst (qcall_handle c)); intro H; inversion H; subst. repeat split; reflexivity.
 Qed.
 
-Lemma query_total_l : forall h c, check_query h c = Pass \/ exists v r, check_query h c = Refuse v r.
-Proof. intros h c. destruct (check_query h c) as [|v r]; [left; reflexivity | right; eauto]. Qed.
+Lemma query_null_handle_l : forall c,
+  check_query None c = if fst (qcall_handle c) then Refuse (query_fval c) (Direct E_INVAL) else Fault.
+Proof. reflexivity. Qed.
 
-Lemma query_refused_unchanged_l : forall sl c v r,
-  snd (query_step sl c) = Refuse v r -> fst (query_step sl c) = sl.
+(* as found: all four C functions behind the query calls test first (the deletion happens on an
+   early successful exit) and the getters are read-only *)
+Lemma query_orders_checks_first_l : forall c, checks_first (qcall_order c) = true.
+Proof. intro c. destruct c; reflexivity. Qed.
+
+Lemma query_step_spec_l : forall pre sl c,
+  checks_first (qcall_order c) = true ->
+  query_step pre sl c = (match check_query_some sl c with Pass => slots_after sl c | _ => sl end, check_query_some sl c).
 Proof.
-  intros sl c v r. unfold query_step. destruct (check_query_some sl c); simpl; [discriminate | reflexivity].
+  intros pre sl c H. unfold query_step, query_run, query_body. rewrite H. rewrite two_phase_run.
+  pose proof (check_query_some_no_fault sl c) as NF.
+  destruct (check_query_some sl c) as [|v r|]; [reflexivity | reflexivity | contradiction].
+Qed.
+
+Lemma query_refused_unchanged_l : forall pre sl c v r,
+  checks_first (qcall_order c) = true ->
+  snd (query_step pre sl c) = Refuse v r -> fst (query_step pre sl c) = sl.
+Proof.
+  intros pre sl c v r H. rewrite (query_step_spec_l pre sl c H). simpl.
+  destruct (check_query_some sl c); [discriminate | reflexivity | reflexivity].
 Qed.
 
 Lemma check_get_pass_iff : forall sl v ci, check_get sl v ci = Pass <-> exists n, slot_at sl ci = Some n.
@@ -305,12 +407,12 @@ Proof.
 Qed.
 
 Example query_examples :
-  check_query (Some [Some 10; None; Some 12]) (QGet VNULL 1) = Refuse VNULL (Direct E_INVAL) /\
-  check_query (Some [Some 10; None; Some 12]) (QGet VNULL 2) = Pass /\
-  check_query (Some [Some 10; None; Some 12]) (QGet VHUGE 3) = Refuse VHUGE (Direct E_INVAL) /\
+  check_query (Some [Some 10; None; Some 12]) (QGet GName 1) = Refuse VNULL (Direct E_INVAL) /\
+  check_query (Some [Some 10; None; Some 12]) (QGet GName 2) = Pass /\
+  check_query (Some [Some 10; None; Some 12]) (QGet GFmax 3) = Refuse VHUGE (Direct E_INVAL) /\
   check_query (Some [Some 10; None; Some 12]) (QFind 11) = Refuse VM1 (Direct E_NOENT) /\
   check_query (Some [Some 10; None; Some 12]) (QDelete 1) = Refuse VM1 (Direct E_NOENT) /\
-  check_query (Some [Some 10; None; Some 12]) (QProperty VM1 (-1)) = Pass /\
+  check_query (Some [Some 10; None; Some 12]) (QProperty PfType (-1)) = Pass /\
   add_calibration [Some 10; None; Some 12] 11 = ([Some 10; Some 11; Some 12], 1) /\
   add_calibration [Some 10] 11 = ([Some 10; Some 11; None; None; None; None; None; None], 1) /\
   add_calibration [Some 10; None; Some 12] 12 = ([Some 10; None; Some 12], 2).
